@@ -21,7 +21,7 @@ ASSUMPTIONS = ['the bound 3*timeouts + 10 s separates bounded from blocked under
                'the harness installs a SIGTERM handler in the shard so that a self-directed SIGTERM becomes an observation instead of killing the check']
 SHRINK = 'none'
 TIME_BUDGET = {'quick': 170, 'thorough': 1700}
-REQUIRED = {'quick': {'beh:swallow': 20, 'beh:sleep': 15, 'beh:gil': 15, 'beh:stop': 15, 'beh:coop': 20, 'beh:finished': 15, 'beh:norun': 10, 'beh:linger': 15, 'beh:host_vanished': 15, 'force_true_on_uncooperative': 30,
+REQUIRED = {'quick': {'beh:swallow': 20, 'beh:sleep': 15, 'beh:gil': 15, 'beh:stop': 15, 'beh:coop': 20, 'beh:finished': 15, 'beh:norun': 10, 'beh:linger': 15, 'beh:host_vanished': 15, 'stopped_child_continued': 40, 'force_true_on_uncooperative': 30,
                       'calls_after_death>=2': 40},
             'thorough': {'beh:swallow': 200, 'beh:sleep': 150, 'beh:gil': 80, 'beh:stop': 80, 'force_true_on_uncooperative': 300}}
 _T = [0, 0.2, 1]
@@ -43,13 +43,22 @@ def _ops(thread):
     return st.lists(op.map(list), min_size=1, max_size=4)
 
 
+def _ops_stop():
+    # a stopped child may be continued between two calls (job control, a debugger detaching, a supervisor): requests sent while it was stopped are then served
+    base = _ops(False)
+    during = st.tuples(st.just('terminate'), st.just(1), st.booleans(), st.just('cont_during')).map(list)     # ... or while a call is waiting for it
+    return st.one_of(st.builds(lambda ops, k: ops[:k] + [['cont']] + ops[k:], base, st.integers(0, 3)),
+                     st.builds(lambda ops, k, d: ops[:k] + [d] + ops[k:], base, st.integers(0, 3), during))
+
+
 def strategy(tier):
     th = st.fixed_dictionaries({'kind': st.sampled_from(['thread', 'p_thread']), 'beh': st.sampled_from(['coop', 'swallow', 'finished', 'norun']), 'ops': _ops(True)})
     pr = st.fixed_dictionaries({'kind': st.sampled_from(['process', 'remote', 'p_process', 'p_remote']),
                                 'beh': st.sampled_from(['coop', 'swallow', 'sleep', 'gil', 'stop', 'finished', 'norun', 'linger']), 'ops': _ops(False)})
     # the most unresponsive child of all: its whole host vanishes (control connection reset / closed, data connection silent; engine FAKEHOST)
+    stc = st.fixed_dictionaries({'kind': st.sampled_from(['process', 'p_process', 'remote', 'p_remote']), 'beh': st.just('stop'), 'ops': _ops_stop()})
     hv = st.fixed_dictionaries({'kind': st.sampled_from(['remote', 'p_remote']), 'beh': st.just('host_vanished'), 'ctrl': st.sampled_from(['rst', 'fin', 'rst', 'fin', 'rst', 'fin', 'rst', 'fin', 'rst', 'silent']), 'ops': _ops(False)})
-    return st.one_of(th, pr, pr, pr, pr, pr, pr, hv)
+    return st.one_of(th, pr, pr, pr, pr, pr, pr, hv, stc)
 
 
 def setup_shard(ctx):
@@ -151,7 +160,27 @@ def run_case(case, ctx):
                     tsum = op[1] * (2 if op[2] else 1)
                     if kind.endswith('remote'):
                         tsum += 2 * min(1, op[1])
+                    if len(op) > 3 and op[3] == 'cont_during' and pid:
+                        import threading
+
+                        def _cont(pid=pid):
+                            time.sleep(0.15)
+                            try:
+                                os.kill(pid, signal.SIGCONT)
+                            except ProcessLookupError:
+                                pass
+                        threading.Thread(target=_cont, daemon=True).start()
+                        out.label('stopped_child_continued')
                     ret = bounded(w.terminate, 3 * tsum + 10, op[1], op[2])
+                elif what == 'cont':
+                    if pid:
+                        try:
+                            os.kill(pid, signal.SIGCONT)
+                        except ProcessLookupError:
+                            pass
+                    time.sleep(0.05)
+                    out.label('stopped_child_continued')
+                    ret = 'continued'
                 elif what == 'is_alive':
                     ret = bounded(w.is_alive, 10)
                 else:
